@@ -152,20 +152,24 @@ Proof. exact inject_models_agree. Qed.
 
 Example C07_C19_inject_models_agree_nonvacuous :
   valid lx5 /\
-  (exists sv, Cli.Model.convert_values [L2; L25] None = Ok sv /\
-              stored_values lx_ftok sv = [JNum [50; 46; 48]%N; JNum [50; 46; 53]%N]) /\
+  match Cli.Model.convert_values [L2; L25] None with
+  | Ok sv => stored_values lx_ftok sv = [JNum [50; 46; 48]%N; JNum [50; 46; 53]%N]
+  | Err _ => False
+  end /\
   match Cli.Model.inject (stored_jv lx_ftok) (view lx5) (name_of_cls VSamples) [110]%N [L2; L25] None false with
   | Ok (rc, Some m') =>
       rc = 0%Z /\ Cli.Model.x_dict m' (name_of_cls VSamples) =
         [(kv, JArr [JStr [97]%N; JStr [252; 98]%N]); ([110]%N, JArr [JNum [50; 46; 48]%N; JNum [50; 46; 53]%N])]
   | _ => False
   end /\
-  (exists e', inject lx5 VSamples [110]%N [JNum [50; 46; 48]%N; JNum [50; 46; 53]%N] false = Ok e' /\
-     class_obj e' VSamples = [(kv, JArr [JStr [97]%N; JStr [252; 98]%N]); ([110]%N, JArr [JNum [50; 46; 48]%N; JNum [50; 46; 53]%N])]) /\
+  match inject lx5 VSamples [110]%N [JNum [50; 46; 48]%N; JNum [50; 46; 53]%N] false with
+  | Ok e' => class_obj e' VSamples =
+        [(kv, JArr [JStr [97]%N; JStr [252; 98]%N]); ([110]%N, JArr [JNum [50; 46; 48]%N; JNum [50; 46; 53]%N])]
+  | Err _ => False
+  end /\
   Cli.Model.inject (stored_jv lx_ftok) (view lx5) (name_of_cls VSamples) kv [L2; L25] None false = Ok (1%Z, None) /\
   inject lx5 VSamples kv [JNum [50; 46; 48]%N; JNum [50; 46; 53]%N] false = Err EValue.
 Proof.
-  split; [apply lx5_ok|]. split; [eexists; split; vm_compute; reflexivity|].
-  split; [vm_compute; split; reflexivity|].
-  split; [eexists; split; vm_compute; reflexivity|]. split; vm_compute; reflexivity.
+  split; [apply lx5_ok|]. split; [vm_compute; reflexivity|]. split; [vm_compute; split; reflexivity|].
+  split; [vm_compute; reflexivity|]. split; vm_compute; reflexivity.
 Qed.
